@@ -1,5 +1,6 @@
 import Model.Int32
 import Model.Generated
+import Proofs.Memory
 /-!
 # C05 — latches: comparison inversion used for the inlined hold condition
 
